@@ -281,7 +281,7 @@ theorem approval_shape (split : Bool) (p : AProfile) (n : Nat) (hok : C13.Approv
     injection heq with heq
     refine plurality_over_dict d _ (nodup_canonSet _) hnd ?_ n h1 hlen
     intro k
-    rw [heq, mem_dkeys_approvalFold, approvalCands, mem_canonSet, List.mem_flatMap]
+    rw [heq, mem_dkeys_approvalFold, mem_canonSet, List.mem_flatMap]
     simp [dkeys]
 
 /-- the only error of AV/SAV is the `ZeroDivisionError` of an empty approval set under SAV — outside the property's
